@@ -182,9 +182,19 @@ func propC12(c *Ctx) {
 	}
 	// several returns may each build the filter (an early one without addresses): every one is judged
 	nw := news[len(news)-1]
+	// the list may be built in Filter or in a helper of its own (ig.logAddrs()): the region of Filter
+	freg := NewRegion(flt)
 	var addrLeaves []phiLeaf
 	for _, n := range news {
-		addrLeaves = append(addrLeaves, phiLeaves(n.Call.Args[1])...)
+		for _, lf := range phiLeaves(n.Call.Args[1]) {
+			if rs := freg.Results(stripConv(lf.Val), 0); rs != nil {
+				for _, r := range rs {
+					addrLeaves = append(addrLeaves, phiLeaves(r)...)
+				}
+			} else {
+				addrLeaves = append(addrLeaves, lf)
+			}
+		}
 	}
 	nPush := 0
 	seenPush := map[ssa.Value]bool{}
@@ -241,7 +251,7 @@ func propC12(c *Ctx) {
 		// (a) guarded by a positive-operator test (direct or through a boolean helper)
 		okA := false
 		var guards []Edge
-		allInstrs(flt, func(in ssa.Instruction) {
+		freg.AllInstrs(func(in ssa.Instruction) {
 			switch x := in.(type) {
 			case *ssa.BinOp:
 				if x.Op == token.EQL {
@@ -265,12 +275,12 @@ func propC12(c *Ctx) {
 				}
 			}
 		})
-		okA = len(guards) > 0 && guardedByEdges(flt, ap, guards)
+		okA = len(guards) > 0 && freg.Guarded(ap, guards)
 		if !okA {
 			// a boolean helper of Filter that looks at the operator guards the push, in a form that is not read
 			// (a set of operators kept as a map, …): present, not decided
 			var unread []Edge
-			allInstrs(flt, func(in ssa.Instruction) {
+			freg.AllInstrs(func(in ssa.Instruction) {
 				x, ok := in.(*ssa.Call)
 				if !ok {
 					return
@@ -305,7 +315,7 @@ func propC12(c *Ctx) {
 					unread = append(unread, t...)
 				}
 			})
-			if len(unread) > 0 && guardedByEdges(flt, ap, unread) {
+			if len(unread) > 0 && freg.Guarded(ap, unread) {
 				c.OK("R12.1", fmt.Sprintf("Integration.Filter/push#%d/positive-operator", nPush), ap.Pos(), "the push is guarded by a helper of Filter that looks at the operator, in a form that is not read: not decided")
 				goto partB
 			}
@@ -316,7 +326,7 @@ func propC12(c *Ctx) {
 		// (b) aggregation consulted
 		var aggGuards []Edge
 		var aggUnread []Edge
-		allInstrs(flt, func(in ssa.Instruction) {
+		freg.AllInstrs(func(in ssa.Instruction) {
 			if b, ok := in.(*ssa.BinOp); ok && (b.Op == token.EQL || b.Op == token.NEQ) && (isLoadOfField(b.X, fAGG) || fieldIs(b.X, fAGG)) {
 				t, f := boolEdges(b)
 				aggGuards = append(aggGuards, t...)
@@ -325,7 +335,7 @@ func propC12(c *Ctx) {
 		})
 		// ... or through a boolean helper of Integration whose `true` implies
 		// filterAGG == "and" or "at most one active filter"
-		allInstrs(flt, func(in ssa.Instruction) {
+		freg.AllInstrs(func(in ssa.Instruction) {
 			x, ok := in.(*ssa.Call)
 			if !ok {
 				return
@@ -511,8 +521,8 @@ func propC12(c *Ctx) {
 				aggGuards = append(aggGuards, t...)
 			}
 		})
-		okB := len(aggGuards) > 0 && guardedByEdges(flt, ap, aggGuards)
-		if !okB && len(aggUnread) > 0 && guardedByEdges(flt, ap, aggUnread) {
+		okB := len(aggGuards) > 0 && freg.Guarded(ap, aggGuards)
+		if !okB && len(aggUnread) > 0 && freg.Guarded(ap, aggUnread) {
 			c.OK("R12.1", fmt.Sprintf("Integration.Filter/push#%d/aggregation-consulted", nPush), ap.Pos(), "the push is guarded by a helper of Integration that consults filter_agg, in a form that is not read (no counter): not decided")
 			continue
 		}
